@@ -564,7 +564,7 @@ func racePass(r *report.Run) {
 		}
 	}
 	if !strings.Contains(so.String(), "race-pass runs:") {
-				// on the pinned tree every template of the pass completes; free-running, an unrecovered panic in a goroutine of a
+		// on the pinned tree every template of the pass completes; free-running, an unrecovered panic in a goroutine of a
 		// template (which no schedule-independent program may raise) kills the whole pass
 		key := "race-pass: the free-running binary died (unrecovered panic or fatal error in a template)"
 		r.Fail(report.Failure{Key: key, What: key + ": " + lastLine(se.String()), Case: map[string]interface{}{"stderr_tail": lastLine(se.String())}})
